@@ -141,8 +141,9 @@ func (w *FileWriter) generateImports(info *GenerationInfo) []string {
 	needsCore := false
 
 	for _, field := range info.Fields {
-		// Check for time.Time fields
-		if strings.Contains(field.Type.String(), "time.Time") {
+		// A type argument that names time.Time (gozod.Slice[time.Time](...))
+		// needs the package; gozod.Time() alone does not.
+		if code, err := w.generateFieldSchemaCode(field, info.Name); err == nil && strings.Contains(code, "time.Time") {
 			imports["time"] = true
 		}
 
@@ -261,7 +262,10 @@ func (w *FileWriter) generateFieldSchemaCode(field tagparser.FieldInfo, structNa
 			b.WriteString(code)
 		}
 	}
-	if !field.Required {
+	if !field.Required && field.Type.Kind() != reflect.Slice {
+		// .Optional() turns the output type of a slice schema into *[]T, which
+		// cannot be stored in a []T field; FromStruct applies it to pointer
+		// fields only.
 		b.WriteString(".Optional()")
 	}
 	return b.String(), nil
@@ -371,6 +375,10 @@ func baseConstructor(typeName, structName string) string {
 			// .Optional() from the caller when the field is not required.
 			return "gozod.Time()"
 		}
+		if strings.HasPrefix(base, "[]") {
+			// *[]T: the slice schema accepts a pointer to a slice
+			return baseConstructor(base, structName)
+		}
 		return fmt.Sprintf("gozod.FromStruct[%s]()", base)
 	}
 
@@ -379,7 +387,9 @@ func baseConstructor(typeName, structName string) string {
 		if structName != "" && clean == structName {
 			return fmt.Sprintf("gozod.Slice(gozod.Lazy(func() gozod.ZodType[any] { return gozod.FromStruct[%s]() }))", clean)
 		}
-		return fmt.Sprintf("gozod.Slice(%s)", baseConstructor(elem, structName))
+		// gozod.Slice[T any](elementSchema any): T occurs in no parameter, so it
+		// has to be written; it is the element type as declared on the field.
+		return fmt.Sprintf("gozod.Slice[%s](%s)", elem, baseConstructor(elem, structName))
 	}
 
 	if strings.HasPrefix(typeName, "map[") {
